@@ -77,8 +77,8 @@ class C01:
     PROP = "C01"
     LEVEL = "exploration"
     TIERS = {
-        "quick": {"runs": 40000, "budget_s": 55, "chunk": 50, "determinism_runs": 32},
-        "thorough": {"runs": 1500000, "budget_s": 900, "chunk": 100, "determinism_runs": 256, "minimise_s": 150},
+        "quick": {"runs": 40000, "budget_s": 55, "chunk": 100, "determinism_runs": 32},
+        "thorough": {"runs": 1500000, "budget_s": 900, "chunk": 200, "determinism_runs": 256, "minimise_s": 150},
     }
     RULE = ("Each run: one environment recipe (mode, undefined type, autoescape, feature flags, limits, extra), one "
             "loader kind (dict/choice/file-system/custom and their caching variants, namespace_key on/off), a "
